@@ -100,7 +100,7 @@ def case(run, task):
     cl, ex3 = runs(mod, 'h_%s_clone' % ty, [Buf('msg', L, init=msg, writable=False), Sc('len', 64, L), Sc('c1', 64, c1),
                                              Buf('out1', 512, init=o0[0]), Buf('out2', 512, init=o0[1]), Buf('out3', 512, init=o0[2])])
     ru, ex4 = runs(mod, 'h_%s_reuse' % ty, [Buf('msg', L, init=msg, writable=False), Sc('len', 64, L), Buf('junk', max(c1, 1), init=junk, writable=False), Sc('c1', 64, c1),
-                                             Buf('out1', 512, init=o0[0]), Buf('out2', 512, init=o0[1])])
+                                             Buf('out1', 512, init=o0[0]), Buf('out2', 512, init=o0[1]), Buf('out3', 512, init=o0[2])])
     run.exec_s += time.time() - t0
     for e_ in (ex0, ex2, ex3, ex4):
         run.note_functions(execu.demangle_hint(f) for f in e_.funcs_run)
@@ -117,7 +117,7 @@ def case(run, task):
 
     def pick(d, arm):
         return d.get(arm) or list(d.values())[0]
-    for kind, res, outs in (('three-updates', sp, [('out', None)]), ('clone', cl, [('out1', None), ('out2', None), ('out3', 'prefix')]), ('reset/finalize_reset', ru, [('out1', None), ('out2', None)])):
+    for kind, res, outs in (('three-updates', sp, [('out', None)]), ('clone', cl, [('out1', None), ('out2', None), ('out3', 'prefix')]), ('reset/finalize_reset', ru, [('out1', None), ('out2', None), ('out3', None)])):
         for r in res:
             arm = arm_name(r.pc)
             name = base + '/' + kind + '/arm[%s]' % arm
@@ -164,8 +164,8 @@ def confirm_native(run, config, ty, kind, L, c1, c2, model):
         o, rc = nat('h_%s_clone' % ty, [msg.hex(), '%x' % L, '%x' % c1, z, z, z])
         bad = rc != 0 or o[0][:2 * dn] != one[0][:2 * dn] or o[1][:2 * dn] != one[0][:2 * dn] or o[2][:2 * dn] != pre[0][:2 * dn]
     else:
-        o, rc = nat('h_%s_reuse' % ty, [msg.hex(), '%x' % L, junk.hex(), '%x' % c1, z, z])
-        bad = rc != 0 or o[0][:2 * dn] != one[0][:2 * dn] or o[1][:2 * dn] != one[0][:2 * dn]
+        o, rc = nat('h_%s_reuse' % ty, [msg.hex(), '%x' % L, junk.hex(), '%x' % c1, z, z, z])
+        bad = rc != 0 or any(o[i][:2 * dn] != one[0][:2 * dn] for i in range(3))
     key = '%s:%s' % (ty, kind)
     what = '%s: %s gives a different digest than hashing in one call [L=%d c1=%d c2=%d]' % (ty, kind, L, c1, c2)
     if bad:
